@@ -245,14 +245,16 @@ func init() {
 	register("C06", func(e *Env) {
 		renderPrelude()
 		e.perShard = 80
-		e.rep.Rule = "expression trees over the pool {0,1,2,7,maxint,1.5,0.25,\"\",\"a\",\"b\",\"10\",\"^a\",true,false,nil, int/float/string/negative variables, floats printed with an exponent}: every tree of depth 1 (all operator x operand pairs, and ! of each) exhaustively, random trees to depth 5; each printed with minimal, full and random-redundant parentheses; judged against a Go reference evaluator written from the documented meaning (precedence ! > * / > + - > comparisons > == != ~= > && ||, left associativity, short circuit, wrap-around ints, truncating division, errors for division by zero and type mismatches); combinations the documentation leaves open (bool+bool, string vs non-string comparison, bool vs non-bool) are excluded by name; non-trivial = reference value defined; distinct by printed expression"
-		binds := []Bind{{"vi", vInt(3)}, {"vneg", vInt(-4)}, {"vfl", vFloat("2.5")}, {"vs", vStr("str")}, {"vmin", vInt(math.MinInt)}, {"vbig", vFloat("2500000.0")}, {"vtiny", vFloat("0.000025")}}
+		e.rep.Rule = "expression trees over the pool {0,1,2,7,maxint,1.5,0.25,\"\",\"a\",\"b\",\"10\",\"^a\",true,false,nil, int/float/string/negative variables, floats printed with an exponent, integers beyond 2^53 that differ by one}: every tree of depth 1 (all operator x operand pairs, and ! of each) exhaustively, random trees to depth 5; each printed with minimal, full and random-redundant parentheses; judged against a Go reference evaluator written from the documented meaning (precedence ! > * / > + - > comparisons > == != ~= > && ||, left associativity, short circuit, wrap-around ints, truncating division, errors for division by zero and type mismatches); combinations the documentation leaves open (bool+bool, string vs non-string comparison, bool vs non-bool) are excluded by name; non-trivial = reference value defined; distinct by printed expression"
+		binds := []Bind{{"vi", vInt(3)}, {"vneg", vInt(-4)}, {"vfl", vFloat("2.5")}, {"vs", vStr("str")}, {"vmin", vInt(math.MinInt)}, {"vmaxm", vInt(math.MaxInt - 1)}, {"vbig", vFloat("2500000.0")}, {"vtiny", vFloat("0.000025")}}
 		leaves := []*xnode{
 			{leaf: "0", val: 0}, {leaf: "1", val: 1}, {leaf: "2", val: 2}, {leaf: "7", val: 7}, {leaf: "9223372036854775807", val: math.MaxInt},
 			{leaf: "1.5", val: 1.5}, {leaf: "0.25", val: 0.25}, {leaf: `""`, val: ""}, {leaf: `"a"`, val: "a"}, {leaf: `"b"`, val: "b"}, {leaf: `"10"`, val: "10"}, {leaf: `"^a"`, val: "^a"},
 			{leaf: "true", val: true}, {leaf: "false", val: false}, {leaf: "nil", val: nil},
 			{leaf: "vi", val: 3}, {leaf: "vneg", val: -4}, {leaf: "vfl", val: 2.5}, {leaf: "vs", val: "str"}, {leaf: "vmin", val: math.MinInt},
 			// floats whose printed form uses an exponent (the printed form of x is what string + x appends)
+			// integers that differ but have the same float64 image
+			{leaf: "9007199254740993", val: 9007199254740993}, {leaf: "9007199254740992", val: 9007199254740992}, {leaf: "vmaxm", val: math.MaxInt - 1},
 			{leaf: "vbig", val: 2.5e+06}, {leaf: "vtiny", val: 2.5e-05}, {leaf: "1000000.0", val: 1000000.0},
 		}
 		judge := func(tag string, n *xnode) {
